@@ -357,7 +357,7 @@ impl Variance<f64> for InvGaussian {
 
 impl Skewness for InvGaussian {
     fn skewness(&self) -> Option<f64> {
-        Some(2.0 * (self.mu / self.lambda).sqrt())
+        Some(3.0 * (self.mu / self.lambda).sqrt())
     }
 }
 
